@@ -271,9 +271,13 @@ def _history(e, case, stack, expected, td, sb, ctl, log, probes, label,
         # property does not say); only the file lifetime is checked
         expected = [None] * len(expected)
         probes['fromdicts-generator-failed'] = 1
+        tolerant = True
+    else:
+        tolerant = False
     w, views = build(e, stack, case['tables'], tempdir=td)
     sch = Sched(list(views), expected, log=log, items=is_items(stack),
-                expect_fault=_is_injected)
+                expect_fault=(lambda t, ex: True) if tolerant
+                else _is_injected)
     del views
     try:
         try:
